@@ -6,6 +6,7 @@ import (
 	"errors"
 	"fmt"
 	"io"
+	"strings"
 	"time"
 
 	"github.com/tychoish/fun"
@@ -350,11 +351,18 @@ func build(tier string) ([]runner.Instance, time.Duration) {
 						}
 					}
 					for _, rel := range rels {
-						out = append(out, runner.Instance{Group: "grow/" + s.name, Name: fmt.Sprintf("grow/%s/pre=%d,adds=%d,iters=%d,release=%s", s.name, pre, a, n, rel), Bound: bound, Scenario: grow(s, pre, a, n, rel)})
+						gb := bound
+						if n == 2 && s.blocking && strings.HasPrefix(s.name, "deque.") && tier != "thorough" {
+							gb = bound - 1 // two parked deque waiters wake each other: long executions
+						}
+						out = append(out, runner.Instance{Group: "grow/" + s.name, Name: fmt.Sprintf("grow/%s/pre=%d,adds=%d,iters=%d,release=%s", s.name, pre, a, n, rel), Bound: gb, Scenario: grow(s, pre, a, n, rel)})
 					}
 				}
 			}
 			for _, script := range []string{"rc", "rac", "rrac", "arc", "c", "rarc", "r", "ra", "rra", "rar"} {
+				if !strings.Contains(script, "c") && (!s.blocking || pre == 0) {
+					continue // scripts without Close matter for the blocking flavours (EOF only once closed)
+				}
 				out = append(out, runner.Instance{Group: "churn/" + s.name, Name: fmt.Sprintf("churn/%s/pre=%d,%s", s.name, pre, script), Bound: churnBound, Scenario: churn(s, pre, script)})
 			}
 		}
